@@ -113,6 +113,19 @@ def compare(a, b):
         elif k == "fit:ndf":
             if x != y:
                 bad.append((k, x, y, "wrong-value"))
+        elif k == "fit:cov" or k == "fit:asym":
+            if x is None or y is None:
+                if (x is None) != (y is None):
+                    bad.append((k, _l(x), _l(y), "wrong-value"))
+                continue
+            x, y = np.asarray(x, dtype=float), np.asarray(y, dtype=float)
+            sg = np.asarray(a["fit:errors"], dtype=float)
+            tol = 0.05 * (np.outer(sg, sg) if k == "fit:cov" else sg[:, None] + 0.0 * x) + 1e-12
+            if x.shape != y.shape or not np.all(np.isfinite(x) == np.isfinite(y)) or np.any(np.abs(np.where(np.isfinite(x), x - y, 0.0)) > tol):
+                bad.append((k, _l(x), _l(y), "wrong-value"))
+        elif k.startswith("kw:"):  # what the keyword asks for (reference reading of the wrapper documentation), on both sides
+            if x is not True or y is not True:
+                bad.append((k, "as requested by the keyword", [x, y], "wrong-value"))
     return bad
 
 
